@@ -331,3 +331,7 @@ B('C18.first-directive-only', ['C18'], [(P + 'common/field.py',
 B('C10.derived-items-prepended', ['C10'], [(P + 'common/parse.py', "            unparsed_bytes = unparsed_bytes[parsed_length:]\n            items.append(item)\n\n        return items, items_size",
                                              "            unparsed_bytes = unparsed_bytes[parsed_length:]\n            items.insert(0, item)\n\n        return items, items_size")], mention=['C10.R4'])
 B('C03.text-item-stops-early', ['C03'], [(P + 'common/classes.py', "        parser.parse_string_array('tags', '-')\n", "        parser.parse_string_array('tags', '-', max_item_num=3)\n")], mention=['LanguageTag'])
+_CHAIN_OLD = "        certificates = []\n        for _ in range(parser['certificate_count']):"
+N('benign.chain-count-checked-before-loop', [(P + 'ssh/key.py', _CHAIN_OLD, "        if not parser['certificate_count']:\n            raise InvalidValue(parser['certificate_count'], cls, 'certificate_count')\n" + _CHAIN_OLD),
+                                               (P + 'ssh/key.py', "        if not certificates:\n            raise InvalidValue(parser['certificate_count'], cls, 'certificate_count')\n", "")])
+B('C02.chain-count-unchecked', ['C02'], [(P + 'ssh/key.py', "        if not certificates:\n            raise InvalidValue(parser['certificate_count'], cls, 'certificate_count')\n", "")], mention=['IndexError'])
